@@ -451,7 +451,7 @@ CHECKS["C35"]["units"].append(py_unit("c35_writes", "c35-writes", []))
 CHECKS["C35"]["explanation"] += " Write half: the statements every write method of the real store emits are captured per configuration and compared with the default configuration's: apart from the INSERT into moves (emitted iff MOVES_HISTORY=ON) and InsertLog's advisory lock (taken iff HASH_LOGS=SYNC) they are the same text, so transactions, logs, volumes, accounts and metadata are written identically (what the configuration-dependent triggers add is C04 / C17 / C09)."
 CHECKS["C35"]["outside"] = "the 48-way cross product of feature values (one feature flipped at a time, plus minimal); the write half compares statement texts (decided by equality, not by the solver)"
 
-CHECKS["C02"]["units"].append(unit("./internal/storage/ledger", ["storage/bunhook.go", "storage/c02.go"], "^Harness_C02_store_", QT, flags={"labels": "^(C02:|no-panic)", "max-decisions": 3000}, reach=["end"], validate_witnesses=0))
+CHECKS["C02"]["units"].append(unit("./internal/storage/ledger", ["storage/bunhook.go", "storage/c10.go", "storage/c02.go"], "^Harness_C02_store_", QT, flags={"labels": "^(C02:|no-panic)", "max-decisions": 3000}, reach=["end"]))
 CHECKS["C02"]["explanation"] += " Go-to-SQL link: the real Store.UpdateVolumes runs with symbolic deltas (Input == Output and zero included) up to its INSERT (bun object opaque); the model handed to the statement is read back and must be exactly the rows it was asked to apply."
 
 CHECKS["C14"] = {
@@ -516,6 +516,9 @@ CHECKS["C06"] = {
         unit(CTRL_PKG, CTRL_FILES, "^Harness_C25S_", QT, flags={"labels": "^(C06:|no-panic)", "max-decisions": 3000}, reach=["end"]),
     ],
 }
+
+CHECKS["C06"]["units"].append(py_unit("writes", "writes-C06", ["--props", "C06"]))
+CHECKS["C06"]["explanation"] += " SQL of the balance read: the GetBalances statement captured from the real store (zero-row insert CTE + SELECT ... FOR UPDATE over the requested pairs) evaluated on symbolic tables returns exactly the existing rows of the requested (account, asset) pairs of this ledger with their stored volumes, and no other row (the row the CTE inserts for a never-used pair is not visible to the SELECT of the same statement: PostgreSQL's snapshot rule, which is why such a pair reads as zero)."
 
 CHECKS["C16"] = {
     "level": "other",
